@@ -63,6 +63,9 @@ def edit_campaign(ctx, reports=0.0, analyses=None, sim=True, graph=True, mc=True
             # histories concentrated on the PMux and its inputs
             mnum, mdepth = (150, 16) if q else (1500, 30)
             mb, _ = tlc.run_sim("SimEdit.tla", "SimMux.cfg", ctx.work, num=mnum, depth=mdepth, seed=ctx.seed + 2)
+            # delete-then-regrow histories (freed node indices re-used by inner nodes)
+            rb, _ = tlc.run_sim("SimEdit.tla", "SimReuse.cfg", ctx.work, num=mnum // 2, depth=13, seed=ctx.seed + 3)
+            mb = mb + rb
             n2 = drv_edit.replay_sim(rec, mb, analyses=analyses)
             res.extra["mux_sim_replay"] = {"behaviours": len(mb), "depth": mdepth, "calls": n2}
     finally:
